@@ -93,6 +93,37 @@ MAKE_FORMATS = ['pax', 'gnutar', 'ustar', 'v7tar', 'newc', 'odc', 'bin', 'zip', 
 MAKE_FILTERS = ['none', 'none', 'none', 'gzip', 'bzip2', 'xz', 'zstd', 'lz4', 'compress', 'lzip', 'lzma', 'uuencode', 'b64encode']
 
 
+# Option strings the writers and write filters accept: they change the container's structure (where headers,
+# checksums and block borders are), which is what the reader-side properties quantify over.
+MAKE_OPTIONS = {
+    '7zip': ['7zip:compression=store', '7zip:compression=deflate', '7zip:compression=bzip2', '7zip:compression=lzma1',
+             '7zip:compression=lzma2', '7zip:compression=ppmd', '7zip:compression=zstd'],
+    'zip': ['zip:compression=store', 'zip:compression=deflate', 'zip:zip64', 'zip:compression=store,zip:zip64'],
+    'xar': ['xar:compression=none', 'xar:compression=gzip', 'xar:compression=bzip2', 'xar:compression=xz',
+            'xar:checksum=none', 'xar:checksum=md5', 'xar:toc-checksum=none'],
+    'iso9660': ['iso9660:!rockridge', 'iso9660:joliet=long', 'iso9660:zisofs', 'iso9660:!pad', 'iso9660:iso-level=4'],
+    'mtree': ['mtree:use-set', 'mtree:all', 'mtree:indent'],
+    'lz4': ['lz4:!stream-checksum', 'lz4:block-checksum', 'lz4:block-dependence', 'lz4:block-size=4',
+            'lz4:!stream-checksum,lz4:block-size=4', 'lz4:block-dependence,lz4:block-size=4,lz4:!stream-checksum'],
+    'zstd': ['zstd:frame-per-file', 'zstd:max-frame-in=131072', 'zstd:compression-level=1', 'zstd:compression-level=19'],
+    'gzip': ['gzip:compression-level=1', 'gzip:compression-level=9', 'gzip:!timestamp'],
+    'bzip2': ['bzip2:compression-level=1', 'bzip2:compression-level=9'],
+    'xz': ['xz:compression-level=0', 'xz:compression-level=9'],
+    'lzip': ['lzip:compression-level=0'],
+    'lzma': ['lzma:compression-level=0'],
+}
+
+
+def make_opt(rng, fmt, filt, p=0.5):
+    """' opt=<string>' for a `make` op (or nothing): one option set of the format and/or the filter."""
+    parts = []
+    if fmt in MAKE_OPTIONS and rng.random() < p:
+        parts.append(rng.choice(MAKE_OPTIONS[fmt]))
+    if filt in MAKE_OPTIONS and rng.random() < p:
+        parts.append(rng.choice(MAKE_OPTIONS[filt]))
+    return (' opt=' + ','.join(parts)) if parts else ''
+
+
 def made_archives(rng, count):
     """Archives produced by libarchive's own writers (harness op `make`): (label, load-op, approx size)."""
     out = []
@@ -101,7 +132,7 @@ def made_archives(rng, count):
         if fmt in ('7zip', 'zip', 'xar', 'iso9660') and filt != 'none' and rng.random() < 0.7:
             filt = 'none'
         n = rng.choice([1, 3, 6, 10])
-        out.append((f'{fmt}+{filt}', f'make fmt={fmt} filt={filt} seed={rng.randrange(1, 10**6)} n={n}', 20000 * n))
+        out.append((f'{fmt}+{filt}', f'make fmt={fmt} filt={filt} seed={rng.randrange(1, 10**6)} n={n}' + make_opt(rng, fmt, filt), 20000 * n))
     return out
 
 
@@ -219,6 +250,10 @@ class Trunc(ReadBase):
             ops = [mk, f'run blk={blk} src={src} cons=A trunc=- fault=-']
             for _ in range((14 if label.startswith('pax') else 5) if tier == 'quick' else 40):
                 ops.append(f'run blk={blk} src={src} cons=A trunc={rng.randrange(0, size)} fault=-')
+            # headers, trailers, tables of contents and central directories sit at the two ends
+            for _ in range(6 if tier == 'quick' else 40):
+                t = rng.choice([f'e{rng.randrange(1, 600)}', f'e{rng.randrange(1, 600)}', f'e{rng.randrange(1, 64)}', str(rng.randrange(0, 700))])
+                ops.append(f'run blk={blk} src={src} cons=A trunc={t} fault=-')
             for _ in range(3 if tier == 'quick' else 12):
                 kind = rng.choice(['err', 'err', 'eof', 'skiperr', 'skipshort', 'seekerr'])
                 ops.append(f'run blk={blk if blk != "w" else "512"} src={src} cons=A trunc=- fault={kind}@{rng.choice([0, 1, 2, 3, 5, 8, 13, 30])}')
@@ -230,10 +265,55 @@ class Trunc(ReadBase):
                 seed = rng.randrange(1, 10 ** 6)
                 src = rng.choice(['cbk', 'cb', 'cbs'])
                 blk = rng.choice(['w', '512', '10240'])
-                ops = [f'make fmt=raw filt={filt} seed={seed} n=1', f'run blk={blk} src={src} cons=A trunc=- fault=- raw=1']
+                mk = f'make fmt=raw filt={filt} seed={seed} n=1' + make_opt(rng, 'raw', filt, 0.7)
+                ops = [mk, f'run blk={blk} src={src} cons=A trunc=- fault=- raw=1']
                 for _ in range(6 if tier == 'quick' else 60):
-                    ops.append(f'run blk={blk} src={src} cons=A trunc={rng.randrange(64, 160000)} fault=- raw=1')   # below the filter's signature length the cut stream is simply raw data
+                    ops.append(f'run blk={blk} src={src} cons=A trunc={rng.randrange(160, 160000)} fault=- raw=1')   # below what the filter's bidder needs to recognise it (signature; uu/b64: begin line + one body line) the cut stream is simply raw data
+                for t in self.step_cuts(mk, 2 if tier == 'quick' else 8):
+                    ops.append(f'run blk={blk} src={src} cons=A trunc={t} fault=- raw=1')
                 yield Case(f'trunc:raw:{filt}', ops)
+
+    def step_cuts(self, mk, want):
+        """Cut offsets at the block borders of a filter stream, found without knowing the filter: the number of
+        bytes delivered from a stream cut at offset c is a step function of c; bisect between sampled cuts that
+        deliver different amounts down to the offset where the step is, and return it with its neighbours."""
+        def delivered(cuts):
+            ops = [mk] + [f'run blk=w src=cb cons=A trunc={c} fault=- raw=1' for c in cuts]
+            impl, _ = self._run_impl1(self.exe, [Case('probe', ops)])
+            out = impl[0] if impl else []
+            if not out or not out[0].startswith('made '):
+                return None, []
+            total = int(out[0].split()[1])
+            ls = []
+            for o in out[1:]:
+                m = re.search(r'\|E \S+ \S+ (\d+) ', o)
+                ls.append(int(m.group(1)) if m else -1)
+            return total, ls
+        total, _ = delivered([])
+        if not total or total < 400:
+            return []
+        pts = [160 + (total - 160) * i // 8 for i in range(9)]
+        _, ls = delivered(pts)
+        if len(ls) != len(pts):
+            return []
+        out = []
+        for i in range(len(pts) - 1):
+            if len(out) >= 3 * want:
+                break
+            lo, hi, llo, lhi = pts[i], pts[i + 1], ls[i], ls[i + 1]
+            if llo == lhi:
+                continue
+            while hi - lo > 1:                 # smallest cut that already delivers more than `lo` does
+                mid = (lo + hi) // 2
+                _, lm = delivered([mid])
+                if not lm:
+                    break
+                if lm[0] == llo:
+                    lo = mid
+                else:
+                    hi, lhi = mid, lm[0]
+            out += [hi - 1, hi, hi + 1]
+        return sorted({c for c in out if 160 <= c < total})
 
 
 def tar_fix_checksums(b):
